@@ -220,6 +220,12 @@ def borrowEnter (w : World τ) (a : ActId) (fs : List (Frame τ)) (r : Name) (am
       else
         (w.setLevels rid (vecSub rs.levels amounts)).doPostpone a (.borrowRemoved rid b body :: fs)
 
+/-- the nearest enclosing `first()` loop is told that its generator is being finalised -/
+def markClosing : List (Frame τ) → Option ExnId → List (Frame τ)
+  | [], _ => []
+  | .firstEnd false none :: fs, pending => .firstEnd true pending :: fs
+  | f :: fs, pending => f :: markClosing fs pending
+
 def tArgs (t : τ) : List Int := [(toPair t).1, (toPair t).2]
 
 /-- what an `until(..)` scope listens to, for traces: 0 plain scope, 1 delay, 2 `>=`, 3 `==`, 4 `<`,
@@ -488,6 +494,7 @@ def execStmt (w : World τ) (a : ActId) (fs : List (Frame τ)) : Stmt τ → Wor
     if lt period (zero : τ) then w.raiseNew a fs .valueError
     else w.tickNext a fs false period w.time n body
   | .collect progs =>                                                  -- _concurrent/basics.py collect
+    let w := w.emit a "cbegin" [(progs.length : Int), 1000 + (w.tasks.size : Int)]
     let base := w.freshName
     let names := (List.range progs.length).map (· + base + 1)
     let spawns := (progs.zip names).map (fun p => Stmt.spawn base p.2 p.1 none none false)
@@ -501,7 +508,31 @@ def execStmt (w : World τ) (a : ActId) (fs : List (Frame τ)) : Stmt τ → Wor
       (w, p.2 ++ [{ target := x, signal := none }])) (w, [])
     { w with saved := sv :: w.saved, time := start, turn := 0, pending := [], queue := [(start, acts)], ctl := [],
              nestedRuns := w.nestedRuns + 1 }
-  | .first _ _ _ => (w.emit a "unsupported" []).retTo a fs .unit
+  | .first progs count brk body =>                                     -- _concurrent/basics.py first (an async generator)
+    let n := progs.length
+    let cnt := count.getD n
+    let w := w.emit a "fbegin" [(n : Int), (cnt : Int), (match brk with | some b => (b : Int) | none => -1),
+      if cnt > n then -1 else 1000 + (w.tasks.size : Int)]
+    -- the generator's code runs at the first `__anext__`
+    if cnt > n then w.raiseNew a (.firstEnd false none :: fs) .valueError
+    else
+      let base := w.freshName
+      let names := (List.range n).map (· + base + 1)
+      let w := { w with freshName := base + n + 1 }
+      -- `results = Queue()`
+      let (w, qn) := w.newCond .plain
+      let (w, qm) := w.newCond .plain
+      let l := w.locks.size
+      let q := w.queues.size
+      let w := { w with locks := w.locks.push { notif := qm }, queues := w.queues.push { notif := qn, mutex := l } }
+      let spawns := (progs.zip names).map (fun p => Stmt.spawn base p.2 [.monitor p.1 q] none none true)
+      w.retTo a (.seq [.scope base none (spawns ++ [.firstLoop q cnt brk body])] :: .firstEnd false none :: fs) .unit
+  | .monitor prog q =>                                                 -- `result = await contestant`
+    let w := match w.tasks.toList.findIdx? (·.runner == a) with
+      | some t => w.setTask t (fun x => { x with quiet := true })
+      | none => w
+    w.retTo a (.seq prog :: .firstMonitor q :: fs) .unit
+  | .firstLoop q cnt brk body => w.retTo a (.firstNext q cnt brk body :: fs) .unit   -- `async for winner in a.islice(results, count)`
 
 /-- deliver a normal return value `v` to the top frame `f` of activity `a` (`fs` = frames below) -/
 def stepRet (w : World τ) (a : ActId) (f : Frame τ) (fs : List (Frame τ)) (v : Val) : World τ :=
@@ -558,7 +589,7 @@ def stepRet (w : World τ) (a : ActId) (f : Frame τ) (fs : List (Frame τ)) (v 
     else w.retTo a (.seq prog :: .taskPayload t :: fs) .unit
   | .taskDelay t prog => w.retTo a (.seq prog :: .taskPayload t :: fs) .unit
   | .taskPayload t =>
-    let w := w.emit a "tfin" [0]
+    let w := if (w.task t).quiet then w else w.emit a "tfin" [0]
     let w := w.setTask t (fun x => { x with result := some (valInt v, none) })
     ((w.childFinished t false).taskFinalize t).retTo a fs .unit
   | .scopeBody s =>                                                    -- context.py __aexit__, exc_type None
@@ -649,6 +680,28 @@ def stepRet (w : World τ) (a : ActId) (f : Frame τ) (fs : List (Frame τ)) (v 
   | .tickWait isInt period _ rem body =>
     (w.emit a "tick" []).retTo a (.seq body :: .tickEnd :: .tickBody isInt period w.time (rem - 1) body :: fs) .unit
   | .tickBody isInt period last rem body => w.tickNext a fs isInt period last rem body
+  | .firstMonitor q =>                                                 -- `await queue.put(result)`
+    let w := w.emit a "tfin" [0]
+    let qu := w.queues.getD q default
+    let w := { w with queues := w.queues.modify q (fun x => { x with buffer := x.buffer ++ [valInt v] }) }
+    let (w, _) := w.awakeNext qu.notif
+    w.doPostpone a fs
+  | .firstNext q rem brk body =>
+    -- `islice`: after `count` results (or at once for `count == 0`) the iteration is over
+    if rem == 0 then w.retTo a fs .unit
+    else w.acquireLock a (.firstGot q rem brk body :: fs) (w.queues.getD q default).mutex (.queueGet q)
+  | .firstGot q rem brk body =>                                        -- `yield winner`: the consumer's body runs
+    (w.emit a "got" [valInt v]).retTo a (.seq body :: .firstYield q (rem - 1) (brk.map (· - 1)) body :: fs) .unit
+  | .firstYield q rem brk body =>
+    if brk == some 0 then
+      -- `break`: the generator is dropped, CPython finalises it at once: GeneratorExit at the `yield`
+      let (w, g) := w.newExn .genExit
+      w.raiseTo a (markClosing fs none) g
+    else w.retTo a (.firstNext q rem brk body :: fs) .unit
+  | .firstEnd closing pending =>
+    match closing, pending with
+    | true, some e => (w.emit a "fabort" []).raiseTo a fs e
+    | _, _ => (w.emit a "fend" []).retTo a fs .unit
   | .collectAwait todo acc =>
     let acc := match v with
       | .int i => acc ++ [i]
@@ -692,7 +745,7 @@ def stepRaise (w : World τ) (a : ActId) (f : Frame τ) (fs : List (Frame τ)) (
     let started := match f with
       | .taskPayload _ => true
       | _ => false
-    let w := if !started then w else match w.exn e with
+    let w := if !started || (w.task t).quiet then w else match w.exn e with
       | .genExit => w.emit a "tfin" [2]
       | .sig sg => (match (w.sig sg).kind with
         | .cancelTask _ _ => w.emit a "tfin" [1]
@@ -749,6 +802,26 @@ def stepRaise (w : World τ) (a : ActId) (f : Frame τ) (fs : List (Frame τ)) (
   | .borrowWait .. | .borrowRemoved .. | .borrowInserted .. | .borrowExit1 .. | .borrowExit2 _
   | .resAdjust .. | .tickWait .. | .tickBody .. | .collectAwait .. | .nestedRun => w.raiseTo a fs e
   | .transferDone p => (w.emit a "tabort" [p]).raiseTo a fs e
+  | .firstMonitor _ =>                                                 -- the contestant failed / was closed
+    let w := match w.exn e with
+      | .genExit => w.emit a "tfin" [2]
+      | .sig sg => (match (w.sig sg).kind with
+        | .cancelTask _ _ => w.emit a "tfin" [1]
+        | _ => w.emit a "tfin" (3 :: w.exnCode1 e))
+      | _ => w.emit a "tfin" (3 :: w.exnCode1 e)
+    w.raiseTo a fs e
+  | .firstNext .. | .firstGot .. => w.raiseTo a fs e                   -- raised inside the generator
+  | .firstYield .. =>
+    -- raised by the consumer's body: the abandoned generator is finalised (GeneratorExit at its
+    -- `yield`), whatever that raises is dropped, then the exception goes on in the consumer
+    let (w, g) := w.newExn .genExit
+    w.raiseTo a (markClosing fs (some e)) g
+  | .firstEnd closing pending =>
+    if closing then
+      match pending with
+      | some e' => (w.emit a "fabort" []).raiseTo a fs e'
+      | none => (w.emit a "fend" []).retTo a fs .unit
+    else (w.emit a "fabort" []).raiseTo a fs e
   | .borrowMark r => (w.emit a "bexit" [r, 1]).raiseTo a fs e
   | .borrowBody r b =>                                                 -- BorrowedResources.__aexit__ with an exception
     let w := w.emit a "bbody" [1]
